@@ -568,7 +568,7 @@ def _threaded_switches(fn, _memo={}):
         for bi, b in enumerate(fn.blocks):
             t = b["term"]
             ts = t.get("threaded_switch") if t["k"] == "goto" else None
-            if isinstance(ts, dict):
+            if isinstance(ts, dict) and not ts.get("drop_elab"):
                 d.setdefault(ts["local"], []).append((bi, ts["val"], t["target"]))
         _memo[k] = (fn, d)
     return _memo[k][1]
@@ -614,6 +614,8 @@ def _classify_bool(fx, fn, bl, fail_val, via, matched_local):
             elif not site.is_term and how == "rv":
                 rv = n["rv"]
                 if rv["k"] == "use" and not n["lhs"].get("p"):
+                    if n["lhs"]["l"] == 0:
+                        out.append(Classified("RETURNED", via + ": the boolean is returned to the caller", ok=True))
                     work.append((n["lhs"]["l"], fv))
                 elif rv["k"] == "un" and rv["op"] == "Not":
                     work.append((n["lhs"]["l"], 1 - fv))
@@ -715,7 +717,7 @@ def run(fx, crates=None, cfgname="A"):
             elif o == SEND and len(t["args"]) > 1 and op_local(t["args"][1]) is not None and \
                     _is_error_update(fo, op_local(t["args"][1])):
                 why = "this is the delivery of an error report itself: it can only fail when the receiver is gone"
-            elif callee_path(t) in always_reports:
+            elif callee_path(t) in always_reports or o in always_reports:
                 why = "this call delivers an error report: it can only fail when the receiver is gone"
             if why and all(c.cls in ("HANDLED-LOCALLY", "DISCARDED") for c in bad):
                 cl = good + [Classified("EXEMPT", why, ok=True)]
@@ -801,9 +803,15 @@ def cg_callers(fx, path):
 def _always_reporting_fns(fx):
     """Workspace functions that send a StatusUpdate::Error on every path to their return."""
     out = set()
-    for p, f in fx.fns.items():
-        if f.crate != "libxcp" or not in_scope_fn(fx, f):
+    for p, f0 in fx.fns.items():
+        if f0.crate != "libxcp" or not in_scope_fn(fx, f0):
             continue
+        # on the inlined view: `copy_error(e)` -> `self.error(..)` -> `self.send(StatusUpdate::Error(..))`
+        try:
+            import views
+            f = views.view(fx, p, depth=3, threaded=False) or f0
+        except Exception:
+            f = f0
         cfg = cfg_of(f)
         sends = []
         for bi, t in f.calls():
